@@ -4,7 +4,7 @@
    `*_before_fix` theorems record what the earlier definitions did (kept in
    Model.v as depth_oldrule / erosion_excl) - they are about the OLD code only. *)
 From Coq Require Import ZArith List Bool Arith Lia.
-From NV.C12 Require Import Model Proofs1 Proofs2 Proofs3.
+From NV.C12 Require Import Model Proofs1 Proofs2 Proofs3 Proofs4.
 Import ListNotations.
 
 (* ================================================================== *)
@@ -340,6 +340,26 @@ Example bifurcation_witness :
   threshold_bifurcations [(0,1);(1,0);(1,2);(2,1)] [2;0;1]%Z None [0;2;1] = Some ([0;2;1], [2;2;2], [0;2;1]%Z) /\
   threshold_bifurcations [(0,1);(1,0);(1,2);(2,1)] [0;1;2]%Z None [2;1;0] = Some ([2], [0], [0;0;0]%Z).
 Proof. vm_compute. split; reflexivity. Qed.
+
+(* ================================================================== *)
+(** * diffusion (one feature column, exact rationals) *)
+
+(* (D1) one iteration replaces f[i] by the sum over the edges (i, j, w) of w * f[j]
+   (repeated edges add up, as in the coo matrix) *)
+Theorem diffusion_step_is_weighted_adjacency :
+  forall W f i, i < length f -> QArith_base.Qeq (qat (diffuse1 W f) i) (wsum W f i).
+Proof. exact diffuse1_at. Qed.
+Print Assumptions diffusion_step_is_weighted_adjacency.
+
+(* (D2) nbiter iterations apply that product once per iteration: diffusion(n + m) = diffusion(m) after diffusion(n),
+   in particular diffusion(n) on one object followed by diffusion(m) on the same object *)
+Theorem diffusion_is_iterated_product :
+  forall W n m f, diffusion W (n + m) f = diffusion W m (diffusion W n f) /\ length (diffusion W n f) = length f /\
+                  diffusion W 0 f = f /\ diffusion W 1 f = diffuse1 W f.
+Proof.
+  intros W n m f. split; [apply diffusion_add|]. split; [apply diffusion_length|]. split; reflexivity.
+Qed.
+Print Assumptions diffusion_is_iterated_product.
 
 Example watershed_witness :
   custom_watershed [(0,1);(1,0);(1,2);(2,1);(2,3);(3,2)] [3;1;2;5]%Z (Some 2%Z) = Some ([0;3], [0;-1;1;1]%Z) /\
